@@ -83,9 +83,12 @@ def gen_hyper(r, history=False, compressible_ok=True, ad=True):
 
 
 def ramp_values(r, n, top, shape=None):
-    shape = shape or r.choice(["mono", "mono", "cyclic", "repeat", "nonuniform", "updown"])
+    shape = shape or r.choice(["mono", "mono", "cyclic", "repeat", "nonuniform", "updown", "creep"])
     if n == 1:
         return [top]
+    if shape == "creep":
+        # the full value at once, then increments of a few millionths of it (holding phases)
+        return [round(float(top * (1 + 3e-6 * i)), 12) for i in range(n)]
     if shape == "mono":
         v = [top * (i + 1) / n for i in range(n)]
     elif shape == "nonuniform":
@@ -283,12 +286,18 @@ def gen_job(seed, profile="general"):
         for k, it in enumerate(items):
             if "_top" in it:
                 tv = it["_top"]
-                if isinstance(tv, list) and isinstance(tv[0], list):
-                    ramp.append({"target": f"item:{k}", "values": [[[round(c * (i + 1) / n, 6) for c in row] for row in tv] for i in range(n)]})
-                elif isinstance(tv, list):
-                    ramp.append({"target": f"item:{k}", "values": [[round(c * (i + 1) / n, 6) for c in tv] for i in range(n)]})
+                if kpick(seed, f"item-creep:{j}:{k}", 4) == 0 and n > 1:
+                    # the load at its full value in the first substep, then tiny increments
+                    fac = [1 + 3e-6 * i for i in range(n)]
+                    scl = lambda c, i: round(c * fac[i], 12)
                 else:
-                    ramp.append({"target": f"item:{k}", "values": [round(tv * (i + 1) / n, 6) for i in range(n)]})
+                    scl = lambda c, i: round(c * (i + 1) / n, 6)
+                if isinstance(tv, list) and isinstance(tv[0], list):
+                    ramp.append({"target": f"item:{k}", "values": [[[scl(c, i) for c in row] for row in tv] for i in range(n)]})
+                elif isinstance(tv, list):
+                    ramp.append({"target": f"item:{k}", "values": [[scl(c, i) for c in tv] for i in range(n)]})
+                else:
+                    ramp.append({"target": f"item:{k}", "values": [scl(tv, i) for i in range(n)]})
         steps.append({"ramp": ramp, "_end": vals[-1]})
     if nsteps == 2 and len(items) > 1 and r.random() < 0.4:
         # the second step works on a subset of the items (the solid bodies and constraints only)
@@ -346,3 +355,131 @@ def add_faults(doc, seed, kinds=None, p_fault=0.66):
             f["call"] = r.choice(["gradient", "hessian"])
         doc["faults"].append(f)
     return doc
+
+
+# ----------------------------------------------------------------------------------------
+# unit systems: the same scenario in other consistent units (lengths x L, stresses x S)
+# ----------------------------------------------------------------------------------------
+STRESS_KEYS = {
+    "NeoHooke": ["mu", "bulk"],
+    "NeoHookeCompressible": ["mu", "lmbda"],
+    "LinearElastic": ["E"],
+    "LinearElasticLargeStrain": ["E"],
+    "OgdenRoxburgh": ["mu", "bulk", "m"],
+    "OgdenRoxburghAD": ["mu", "bulk", "m"],
+    "Plastic": ["lmbda", "mu", "sy", "K"],
+    "Visco": ["mu", "bulk", "mu_v", "eta"],
+    "AD:neo_hooke": ["mu", "bulk"],
+    "AD:mooney_rivlin": ["C10", "C01", "bulk"],
+    "AD:yeoh": ["C10", "C20", "C30", "bulk"],
+    "AD:ogden": ["mu", "bulk"],
+    "AD:saint_venant_kirchhoff": ["mu", "lmbda"],
+    "ThreeField": ["mu", "bulk"],
+    "NearlyIncompressible": ["mu", "bulk"],
+    "NI": ["mu", "bulk"],
+}
+UNIT_SYSTEMS = [(1e-3, 1e9), (1e3, 1.0), (1e-3, 1e6), (1.0, 1e6), (1e3, 1e-3)]  # S * L^(dim-1) >= 1
+UNIT_SYSTEMS_ANY = UNIT_SYSTEMS + [(1e-3, 1e-3), (1e-6, 1e3), (1.0, 1e-6)]  # also tiny forces (no converged states needed)
+
+
+def _scale(v, f):
+    if v is None:
+        return None
+    if isinstance(v, list):
+        return [_scale(x, f) for x in v]
+    return float(v) * f
+
+
+def _scale_umat(um, S, done=None):
+    keys = STRESS_KEYS.get(um["name"])
+    if keys is None:
+        return False
+    if done is not None:
+        if id(um) in done:  # the same dict referenced twice in the document
+            return True
+        done.add(id(um))
+    for k in keys:
+        if um["p"].get(k) is not None:
+            um["p"][k] = _scale(um["p"][k], S)
+    return True
+
+
+def apply_units(doc, L, S):
+    """The document in another consistent unit system, or None if some quantity of it has no
+    entry in the dimension tables (axisymmetric fields, exotic materials)."""
+    d = copy.deepcopy(doc)
+    if d.get("field", {}).get("kind") == "Axi":
+        return None
+    m = d["mesh"]
+    dim = 3 if m["gen"] == "Cube" else 2
+    for key in ("a", "b", "extra_point", "orphan_point"):
+        if m.get(key) is not None:
+            m[key] = _scale(m[key], L)
+    if m["gen"] not in ("Cube", "Rectangle"):
+        return None
+    force = S * L ** (dim - 1)  # point force (per unit thickness in 2D)
+    factor = {}
+    done = set()
+    for k, it in enumerate(d["items"]):
+        t = it["type"]
+        if "umat" in it and not _scale_umat(it["umat"], S, done):
+            return None
+        if t == "SolidBodyNearlyIncompressible":
+            it["bulk"] = _scale(it["bulk"], S)
+        elif t == "PointLoad":
+            if it.get("axisymmetric"):
+                return None
+            it["values"] = _scale(it["values"], force)
+            factor[k] = force
+        elif t in ("SolidBodyGravity",):
+            it["gravity"] = _scale(it["gravity"], S / L)
+            factor[k] = S / L
+        elif t == "SolidBodyForce":
+            it["values"] = _scale(it["values"], S / L)
+            factor[k] = S / L
+        elif t == "SolidBodyPressure":
+            it["pressure"] = _scale(it.get("pressure", 0.0), S)
+            factor[k] = S
+        elif t == "SolidBodyCauchyStress":
+            if it.get("stress") is not None:
+                it["stress"] = _scale(it["stress"], S)
+            factor[k] = S
+        elif t in ("MultiPointConstraint", "MultiPointContact"):
+            it["multiplier"] = _scale(it["multiplier"], S * L ** (dim - 2))
+        elif t == "FormItem":
+            it["mu"] = _scale(it["mu"], S)
+            it["lmbda"] = _scale(it["lmbda"], S)
+            factor[k] = 1.0
+        elif t not in ("SolidBody",):
+            return None
+    if "material" in d and not _scale_umat(d["material"], S, done):
+        return None
+    bc = d.get("bc", {})
+    for c in bc.get("list", []):
+        if isinstance(c.get("value"), (int, float, list)):
+            c["value"] = _scale(c["value"], L)
+    for c in bc.get("extra", []):
+        if c.get("field") == 1:
+            c["value"] = _scale(c["value"], S)
+    for s in d.get("steps", []):
+        for r in s.get("ramp", []):
+            tgt = r["target"]
+            if tgt == "bc:patch":
+                continue  # a multiple of X @ H.T: scales with the coordinates
+            if tgt.startswith("bc:"):
+                r["values"] = _scale(r["values"], L)
+            else:
+                r["values"] = _scale(r["values"], factor.get(int(tgt[5:]), 1.0))
+    d["units"] = {"L": L, "S": S}
+    return d
+
+
+def maybe_units(doc, any_force=False, share=4):
+    """Every `share`-th scenario (by its seed) in another consistent unit system."""
+    seed = doc.get("seed", 0)
+    if kpick(seed, "units", share) != 0:
+        return doc
+    systems = UNIT_SYSTEMS_ANY if any_force else UNIT_SYSTEMS
+    L, S = systems[kpick(seed, "unit-system", len(systems))]
+    u = apply_units(doc, L, S)
+    return doc if u is None else u
